@@ -109,7 +109,7 @@ contract(
     }},
     ghost=[("after:agg_scores = *",
             f"assert forall(range(start + {M}, end - {M} + 1), lambda k: agg_scores[k - (start + {M})] == AGG3({TOK}, start, k, end))")],
-    call_ghosts={"cpts = greedy_changepoint_selection(amoc_scores, maximizers, starts, ends, threshold)":
+    call_ghosts={"cpts = greedy_changepoint_selection(*":
                  {"greedy_changepoint_selection": {"m": M, "n": "n"}}},
     props=["C07", "C04", "C10"],
 )
@@ -187,7 +187,7 @@ contract(
                "loop#2": {"starts": "list[int]", "ends": "list[int]", "g_idx": "int[interval_end+1,interval_end+1]"}},
     ghost=[
         ("before:for i in *", "g_idx = lam('int', interval_end + 1, interval_end + 1, lambda a, b: 0)"),
-        ("after:ends.append(j)", "g_idx = lam('int', interval_end + 1, interval_end + 1, lambda a, b: ite(a == i and b == j, len(starts) - 1, g_idx[a, b]))"),
+        ("after:ends.append(*", "g_idx = lam('int', interval_end + 1, interval_end + 1, lambda a, b: ite(a == i and b == j, len(starts) - 1, g_idx[a, b]))"),
     ],
     props=["C09", "C04", "C14"],
 )
@@ -240,7 +240,7 @@ contract(
         ("after:agg_scores = *",
          "assert forall(range(len(anomaly_start_candidates)), lambda q: agg_scores[q] == AGG4(score.ghost_tok, start, anomaly_start_candidates[q], anomaly_end_candidates[q], end))"),
     ],
-    call_ghosts={"anomalies = greedy_anomaly_selection(anomaly_scores, anomaly_starts, anomaly_ends, starts, ends, threshold)":
+    call_ghosts={"anomalies = greedy_anomaly_selection(*":
                  {"greedy_anomaly_selection": {"m": M, "n": "n"}}},
     props=["C09", "C04", "C10"],
 )
